@@ -12,7 +12,7 @@ from anytree.exporter import MermaidExporter
 from .. import forest, refs, shapes, strategies
 from ..core import Violation
 from . import c06
-from .c12 import NAME, NODE_CLASSES, TOKEN, aborted_iterations, esc, expected_structure, special_names, tripwired
+from .c12 import NAME, NODE_CLASSES, TOKEN, decode_name, exotic_names, aborted_iterations, esc, expected_structure, special_names, tripwired
 
 PROP_ID = "C13"
 LEVEL = "exploration"
@@ -33,7 +33,7 @@ ASSUMPTIONS = [
 def check_case(case, acc):
     names = case["names"]
     nodecls = NODE_CLASSES[case.get("cls", "Node")]
-    tree = forest.build_tree(case["shape"], lambda i: nodecls(names[i]))
+    tree = forest.build_tree(case["shape"], lambda i: nodecls(decode_name(names[i])))
     labels = forest.Labels(tree)
     _once(case, acc, tree, labels)
     for op in case.get("mutations", []):
@@ -191,7 +191,7 @@ def _enum_cases(max_nodes, index, count):
             for idx in sub[1:]:
                 depth[idx] = depth[parents[idx]] + 1
             height = max(depth.values())
-            names = special_names(size, k)
+            names = special_names(size, k) if k % 6 else exotic_names(size, k // 6)
             for stop in shapes.subsets(sub):
                 for hide in shapes.subsets(sub):
                     for maxlevel in [None] + list(range(0, height + 3)):
@@ -204,6 +204,8 @@ def random_cases(draw):
     size = shapes.shape_size(forest.to_tuple(shape))
     pool = draw(st.lists(NAME, min_size=1, max_size=4))
     names = [draw(st.one_of(st.sampled_from(pool), NAME)) for _ in range(size)]
+    if draw(st.integers(0, 3)) == 0:
+        names = exotic_names(size, draw(st.integers(0, 13)))
     case = {
         "shape": shape,
         "names": names,
@@ -212,7 +214,7 @@ def random_cases(draw):
         "hide": draw(strategies.subsets_of(size, max_size=4)),
         "maxlevel": draw(st.one_of(st.none(), st.integers(0, 6))),
         "truth": draw(st.integers(0, 3)),
-        "to_file": draw(st.integers(0, 9)) == 0,
+        "to_file": draw(st.integers(0, 9)) == 0 and not any(isinstance(n, str) and any(0xD800 <= ord(ch) <= 0xDFFF for ch in n) for n in names),
         "mutations": draw(strategies.tree_mutations(max_ops=2, rename_values=NAME)),
         "cls": draw(st.sampled_from(["Node", "Node", "EqNode", "FalsyNode", "LenNode"])),
     }
